@@ -55,6 +55,7 @@ type Witness struct {
 	Label string
 	Draws []Draw
 	Decs  []int64
+	Obs   []string
 }
 
 type workItem struct {
@@ -372,10 +373,10 @@ func (eng *Engine) countUndischarged(h *Harness, label string) {
 	h.mu.Unlock()
 }
 
-func (eng *Engine) noteCover(h *Harness, label string, draws []Draw, decs []int64) {
+func (eng *Engine) noteCover(h *Harness, label string, draws []Draw, decs []int64, obs []string) {
 	h.mu.Lock()
 	if h.Covers[label] == nil {
-		h.Covers[label] = &Witness{Label: label, Draws: draws, Decs: append([]int64(nil), decs...)}
+		h.Covers[label] = &Witness{Label: label, Draws: draws, Decs: append([]int64(nil), decs...), Obs: obs}
 	}
 	h.mu.Unlock()
 }
